@@ -151,3 +151,26 @@ ADDED4 = {
 for _pid, _extra in ADDED4.items():
     t, text, note, ref = CLAIMED[_pid]
     CLAIMED[_pid] = (t, text + _extra, note, ref)
+
+ADDED5 = {
+ "C01": " Round 5: every adapter the binder registers starts with a deferred function that calls recover() itself (a builtin called outside its domain yields an error, not a host panic).",
+ "C02": " Round 5: storage identity is followed through append and loop-carried variables (an argument slice built before a retry loop and rewritten inside it).",
+ "C03": " Round 5: every return of LispError.Unwrap is the stored error or nil; the variable the try runner's recover handler fills in is the runner's own error result (every return, also the one after a recovered panic, reads it).",
+ "C05": " Round 5: the tokenizer gives up on the scanner's first error (no assignment to the error count, no path from the error branch to a token).",
+ "C06": " Round 5: map keys and set members are printed only through Pr_str, no other quoting routine in package printer, and the printer assigns no package-level variable.",
+ "C07": " Round 5: no lock is held across a blocking select; a registered builtin or closure without a context parameter of its own may not hand a context to the evaluator.",
+ "C08": " Round 5: methods generated by defprotocol for fixed arities are direct calls of the looked-up implementation (symbolic expansion).",
+ "C09": " Round 5: the versioned install is the only write swap! makes to the atom (no reset of a snapshot on failure).",
+ "C10": " Round 5: a cancelling builtin returns the result of Cancel on every path.",
+ "C11": " Round 5: a write of guarded state through a loaded map (m[k]=v, delete) is a write for the lock rule; calling a writing method under a read lock is a violation.",
+ "C12": " Round 5: Find/Get consult the receiver's own table unconditionally (shared with C01.lookup-order); the quasiquote element loop always returns the list it built.",
+ "C13": " Round 5: neither the builtins nor package types assign package-level state; pair loops reject odd counts (parity test or i < len bound); no fixed-width byte slices of a string inside a range over it.",
+ "C14": " Round 5: Equal_Q, Sequential_Q and GetSlice keep no package-level state.",
+ "C15": " Round 5: one escaper (as C06).",
+ "C17": " Round 5: every Symbol the reader returns is a literal carrying its own token's cursor; reading keeps no package-level state or cache; tokenizer provenance follows helpers by data flow instead of by parameter names.",
+ "C19": " Round 5: comparisons of GetPosition results count as position-dependent behaviour.",
+ "C20": " Round 5: what the recover handler hands to the error constructors is the recovered value itself, not something computed from it.",
+}
+for _pid, _extra in ADDED5.items():
+    t, text, note, ref = CLAIMED[_pid]
+    CLAIMED[_pid] = (t, text + _extra, note, ref)
